@@ -426,3 +426,51 @@ func H_M3_field_scalars() {
 		mMergeK(1, x, y, true)
 	}
 }
+
+// Opaque-API messages (presence bitmap): Merge vs concatenated decoding.
+
+//verif:props=C07 bounds=VScalarsO(opaque);x,y=one-record-each-of-the-same-symbolic-field maxsteps=8000000
+func H_M3_field_opaque() {
+	x, y := mTwoRecords()
+	mMergeK(20, x, y, false)
+}
+
+//verif:props=C07 bounds=VScalarsO(opaque)-and-VReqO;|x|+|y|<=3(quick)/4(thorough) maxsteps=8000000
+func H_M3_opaque() {
+	N := 3
+	if nd.Thorough() {
+		N = 4
+	}
+	x, y := mSplit(N)
+	if nd.Bool() {
+		mMergeK(20, x, y, false)
+	} else {
+		mMergeK(21, x, y, false)
+	}
+}
+
+// H_M3_node: merging messages with a (lazily decoded) child: x and y are each an optional child
+// record with a body of <=1 free byte and an optional scalar field; decoding uses the default
+// options of mOpts (eager) for the oracle side and the merge runs on eagerly decoded operands.
+//
+//verif:props=C07,C17 bounds=VNode;x,y=optional-child-record(body<=1(quick)/2(thorough)-free-bytes)+optional-int-field maxsteps=8000000 deadline=900
+func H_M3_node() {
+	M := 1
+	if nd.Thorough() {
+		M = 2
+	}
+	mk := func() []byte {
+		var b []byte
+		if nd.Bool() {
+			n := nd.Int(0, M)
+			b = append(b, 0x4a, byte(n))
+			b = append(b, nd.BytesN(n)...)
+		}
+		if nd.Bool() {
+			b = append(b, 0x08, nd.Byte())
+		}
+		return b
+	}
+	x, y := mk(), mk()
+	mMergeK(22, x, y, false)
+}
